@@ -301,6 +301,27 @@ func verify(repoDir, verifDir, prop, tier, fnFilter, dump string, overlay map[st
 			mu.Unlock()
 		}()
 	}
+	// lemmas of this property
+	for _, l := range w.LemmasFor(prop) {
+		if fnFilter != "" && !strings.Contains(l.Name, fnFilter) {
+			continue
+		}
+		fr := &FuncReport{Canon: "lemma " + l.Name, Name: "lemma " + l.Name, File: l.Pkg}
+		res.Funcs = append(res.Funcs, fr)
+		l := l
+		wg.Add(1)
+		go func() {
+			defer wg.Done()
+			obs, err := proveLemma(w, l, timeout, sem)
+			mu.Lock()
+			fr.Obligs = obs
+			if err != nil {
+				fr.Err = err.Error()
+			}
+			fr.CtxStatus = "lemma"
+			mu.Unlock()
+		}()
+	}
 	wg.Wait()
 	res.Wall = time.Since(t0).Seconds()
 	return res, nil
